@@ -197,7 +197,7 @@ BUILTIN_EXC = {
     "SystemExit": "BaseException", "KeyboardInterrupt": "BaseException", "GeneratorExit": "BaseException",
     "ConnectionError": "OSError", "BrokenPipeError": "ConnectionError", "ConnectionResetError": "ConnectionError",
     "OverflowError": "ArithmeticError", "NameError": "Exception", "ZeroDivisionError": "ArithmeticError",
-    "socket.error": "OSError",
+    "socket.error": "OSError", "Warning": "Exception", "DeprecationWarning": "Warning", "ResourceWarning": "Warning",
 }
 
 
@@ -294,7 +294,7 @@ def is_false(t):
 
 
 class Engine:
-    def __init__(self, repo, registry, feas_timeout_ms=800, max_paths=4000):
+    def __init__(self, repo, registry, feas_timeout_ms=800, max_paths=1500):
         self.repo = repo
         self.reg = registry
         self.feas_timeout_ms = feas_timeout_ms
@@ -302,6 +302,7 @@ class Engine:
         self.obligations = []
         self.path_count = 0
         self.hooks = []            # discipline hook objects
+        self.truncated = None
         self.contracts_applied = set()
         self.lazy_init = {}
         self.lazy_dict_init = {}
@@ -528,7 +529,10 @@ class Engine:
             stack.extend(self.alts)
             n += 1
             if n > self.max_paths:
-                raise OutOfSubset("more than %d paths" % self.max_paths)
+                # stop exploring: obligations collected so far are still discharged (a refutation on a real path stands),
+                # but the function can no longer be reported as proved
+                self.truncated = "more than %d paths" % self.max_paths
+                break
         self.path_count += n
         return n
 
@@ -1566,8 +1570,9 @@ class Engine:
             return m.items
         if isinstance(it, VDict):
             m = self.state.dicts[it.did]
-            if not m.open:
-                return None
+            if not m.open and not getattr(m, "sym_entries", None):
+                # closed map / string set: its keys, each one included on the paths where it is present
+                return [VStr(k, False) for k, (p, _) in list(m.entries.items()) if self.branch(p)]
             return None
         return None
 
